@@ -2132,3 +2132,85 @@ Proof.
   rewrite Hlog, Hsegs. cbn [new_parser st held sk sprem spad rvm]. apply Q3_init. exact Hcl.
 Qed.
 Print Assumptions client_never_deadlocks.
+
+
+(* ------------------------------------------------------------------------------------------ *)
+(* Part G: an instance: two requests (KeepConn) in two segments; the client releases the second request only after it
+   has counted the EndRequest of the first                                                      *)
+(* ------------------------------------------------------------------------------------------ *)
+Definition ex3_c (body : bytes) : creq :=
+  mkCReq (mkPreamble [] 1 ROLE_Responder FLAG_KeepConn [] [] [] [])
+         [ mkRcd RT_Stdin 1 body [0; 0; 0; 0; 0]; mkRcd RT_Stdin 1 [] [] ].
+(* segment 2 is released once the client has counted [ge] EndRequest records *)
+Definition ex3_cs (ge : N) : list (N * N * creq) := [ (0, 0, ex3_c [97; 98; 99]); (ge, 0, ex3_c [100; 101]) ].
+Definition ex3_w (ge : N) : world := mkW [] [] (enc_client (ex3_cs ge)) [] 0 1 0 false false [].
+(* every handler reads Stdin to the end, then writes "hi" to Stdout *)
+Definition ex3_scripts : list (list N) := [[2; 6; 6; 2; 104; 105]].
+
+
+Lemma ex3_creq_ok body : bytes_okb body = true -> (0 <? len body) && (len body <? 65536) = true -> creq_ok (ex3_c body).
+Proof.
+  intros Hb Hl. apply andb_true_iff in Hl. destruct Hl as [L1 L2]. apply N.ltb_lt in L1. apply N.ltb_lt in L2.
+  unfold creq_ok, ex3_c. cbn [c_pre c_srs w_idle w_pieces w_endjunk w_role w_id].
+  split.
+  { unfold preamble_ok. cbn [w_idle w_id w_role w_flags w_beginpad w_pieces w_endjunk w_endpad].
+    repeat split; try constructor; try (vm_compute; reflexivity). }
+  split; [constructor|]. split; [constructor|]. split; [constructor|]. split.
+  { constructor; [|constructor; [|constructor]].
+    - unfold rcd_ok. cbn [rt rid rbody rpad]. repeat split; try (vm_compute; reflexivity); try exact L2.
+      + apply bytes_okb_ok. exact Hb.
+      + apply bytes_okb_ok. reflexivity.
+    - unfold rcd_ok. cbn [rt rid rbody rpad]. repeat split; try (vm_compute; reflexivity); constructor. }
+  split.
+  { constructor; [|constructor; [|constructor]]; split; cbn [rt]; discriminate. }
+  change (role_input_streams ROLE_Responder) with [RT_Stdin]. constructor; [|constructor].
+  cbn [ended_rcds]. unfold rcd_effect_on. cbn [rt rid rbody].
+  change (is_input_stream RT_Stdin && (1 =? 1)) with true. cbv iota.
+  change (spec_cmp ROLE_Responder RT_Stdin (Some RT_Stdin)) with Eq. cbv iota.
+  destruct (N.eqb_spec (len body) 0) as [Hz|_]; [lia|]. reflexivity.
+Qed.
+
+(* the hypotheses of the theorem hold for it *)
+Example ex3_hyps :
+  64 < SIZE_LIMIT - 8 /\ scripts_ok true ex3_scripts /\ segs (ex3_w 1) = enc_client (ex3_cs 1) /\ client_segs 0 0 (ex3_cs 1) /\
+  wlog (ex3_w 1) = [] /\ no_fault (wscript (ex3_w 1)).
+Proof.
+  split; [vm_compute; reflexivity|]. split.
+  { constructor; [|constructor]. intros role. apply SO_read_all. apply (SO_write true role _ 6 2 [104; 105]). apply SO_nil. }
+  split; [reflexivity|]. split.
+  { cbn [client_segs ex3_cs]. split; [reflexivity|]. split; [lia|]. split; [apply ex3_creq_ok; reflexivity|].
+    split; [reflexivity|]. split; [vm_compute; discriminate|]. split; [apply ex3_creq_ok; reflexivity|exact I]. }
+  split; [reflexivity|constructor].
+Qed.
+
+(* the run: both handlers receive their input (so the second segment was delivered: its gate was met by the EndRequest of
+   the first request), the connection task returns at the end of the input; the log holds two EndRequest records *)
+Example ex3_returns :
+  let r := run_loop (fun b => b) 10 (nb (ex3_w 1) + 4) (new_parser 64) ex3_scripts 0 (ex3_w 1) in
+  fst r = ORet /\ counts (wlog (snd r)) = (2, 0) /\ remaining (snd r) = [] /\
+  In [97; 98; 99] (events (snd r)) /\ In [100; 101] (events (snd r)).
+Proof. vm_compute. repeat split; try reflexivity; auto 12. Qed.
+
+(* ... and by the theorem, for every normalisation function and every max_conns *)
+Example ex3_never_deadlocks norm maxc :
+  fst (run_loop norm maxc (nb (ex3_w 1) + 4) (new_parser 64) ex3_scripts 0 (ex3_w 1)) = ORet.
+Proof.
+  destruct ex3_hyps as (H1 & H2 & H3 & H4 & H5 & H6).
+  exact (client_never_deadlocks norm maxc ex3_scripts 64 (ex3_cs 1) (ex3_w 1) H1 H2 H3 H4 H5 H6).
+Qed.
+
+(* the hypothesis on the gates matters: a client that waits for two EndRequest records after one request is waited for in
+   vain, with its second request undelivered *)
+Example ex3_greedy_deadlocks :
+  let r := run_loop (fun b => b) 10 (nb (ex3_w 2) + 4) (new_parser 64) ex3_scripts 0 (ex3_w 2) in
+  fst r = ODeadlock /\ counts (wlog (snd r)) = (1, 0) /\ remaining (snd r) = enc_rcds (creq_rcds (ex3_c [100; 101])) /\
+  ~ client_segs 0 0 (ex3_cs 2).
+Proof.
+  cbv zeta. split; [vm_compute; reflexivity|]. split; [vm_compute; reflexivity|]. split; [vm_compute; reflexivity|].
+  cbn [client_segs ex3_cs]. intros (_ & _ & _ & H & _). vm_compute in H. discriminate H.
+Qed.
+
+Print Assumptions ex3_hyps.
+Print Assumptions ex3_returns.
+Print Assumptions ex3_never_deadlocks.
+Print Assumptions ex3_greedy_deadlocks.
